@@ -1,7 +1,7 @@
 """C02 -- every conforming response frame is accepted, with exactly its payload."""
 from __future__ import annotations
 from ..runner import Stage
-from .. import frames as F, coqrun as C, respcases as R
+from .. import frames as F, coqrun as C, respcases as R, proto_common as PCM
 
 
 def _frames(ctx, cmd):
@@ -69,12 +69,12 @@ SPEC = dict(
              '(the payload stays at its position; stated in C02_rtu_read_payload).',
         technique='Coq proof over regenerated model (py2v) + translator validation + wf=>accept monitor',
         design_ref='DESIGN.md section 5 (C02)'),
-    stages=[stage_translation, stage_monitor],
+    stages=[stage_translation, stage_monitor, PCM.stage_for('C02')],
     theorems=['C02_rtu_read', 'C02_rtu_read_payload', 'C02_rtu_write', 'C02_rtu_write_multi', 'C02_tcp_read', 'C02_tcp_read_payload',
               'C02_tcp_write', 'C02_tcp_write_multi', 'C02_aa55_read', 'C02_aa55_write', 'C02_aa55_write_multi', 'C02_aa55_generic',
               'C02_aa55_payload'],
     rule='conforming frames per command: payloads all-00 / all-FF / ramp / 7FFF / random x unit addresses x trailing bytes; AA55 '
          'payload lengths 0..255 (quick: 11 lengths) incl. sums >= 0x8000 and >= 0x10000; distinct by (command, frame)',
-    trusted_base=['Spec/Responses.v + Spec/Crc16.v'],
+    trusted_base=['Spec/Responses.v + Spec/Crc16.v', 'end-to-end ("the request succeeds with exactly that payload"): Model/Proto.v trace validation + prompt-answer monitor on the real protocol classes'],
     assumptions=['counts 1..125, 16-bit registers, signed 16-bit values'],
 )
